@@ -213,6 +213,8 @@ pub fn generate(cx: &super::GenCtx) -> Vec<Plan> {
     let n = rng.range(3, 25);
     let sweep = rng.chance(1, 5);
     let mut searching = false;
+    let mut last_game: Option<(Pos, bool, Vec<Mv>, Vec<Pos>)> = None;
+    let mut out_related = 0u64;
     let mut i = 0;
     while i < n {
         i += 1;
@@ -232,14 +234,43 @@ pub fn generate(cx: &super::GenCtx) -> Vec<Plan> {
                 searching = false;
             }
             _ => {
-                let (start, from_startpos) = start_position(&mut rng);
-                let plies = match rng.below(6) {
-                    0 => 0,
-                    1 => rng.below(4),
-                    2 => rng.below(160),
-                    _ => rng.below(40),
-                } as usize;
-                let (ms, ps) = playout(&start, plies, &mut rng, true);
+                // A third of the position commands are RELATED to the previous one, the way a
+                // GUI's are: the same game extended, taken back, repeated, or varied at the end.
+                let related = last_game.is_some() && rng.chance(1, 3);
+                let (start, from_startpos, ms, ps) = if related {
+                    let (st, fs, pm, pp): (Pos, bool, Vec<Mv>, Vec<Pos>) = last_game.clone().unwrap();
+                    let keep = match rng.below(5) {
+                        0 => pm.len(),                                  // same again / extend
+                        1 => pm.len().saturating_sub(1),                // take back one
+                        2 => pm.len().saturating_sub(2),                // take back two
+                        3 => rng.usize_below(pm.len() + 1),             // back to anywhere
+                        _ => 0,                                         // back to the start
+                    };
+                    let mut ms: Vec<Mv> = pm[..keep].to_vec();
+                    let mut ps: Vec<Pos> = pp[..=keep].to_vec();
+                    let extra = match rng.below(4) {
+                        0 => 0,
+                        1 => 1,
+                        2 => 2,
+                        _ => rng.below(6) as usize,
+                    };
+                    let (em, ep) = playout(ps.last().unwrap(), extra, &mut rng, true);
+                    ms.extend(em);
+                    ps.extend(ep.into_iter().skip(1));
+                    out_related += 1;
+                    (st, fs, ms, ps)
+                } else {
+                    let (start, from_startpos) = start_position(&mut rng);
+                    let plies = match rng.below(6) {
+                        0 => 0,
+                        1 => rng.below(4),
+                        2 => rng.below(160),
+                        _ => rng.below(40),
+                    } as usize;
+                    let (ms, ps) = playout(&start, plies, &mut rng, true);
+                    (start, from_startpos, ms, ps)
+                };
+                last_game = Some((start.clone(), from_startpos, ms.clone(), ps.clone()));
                 let mut moves: Vec<String> = ms.iter().map(Mv::uci).collect();
                 // corruption: exactly one move replaced by something that is not legal there
                 if !moves.is_empty() && rng.chance(1, 3) {
@@ -290,6 +321,7 @@ pub fn generate(cx: &super::GenCtx) -> Vec<Plan> {
     gen::machine(&mut plan, &mut rng, 10_000, false);
     gen::schedule(&mut plan, &mut rng, 3_000);
     let _ = moves_str;
+    plan.params = super::super::json::J::obj().set("related_position_commands", out_related);
     vec![plan]
 }
 
@@ -431,6 +463,7 @@ pub fn check(plans: &[Plan], recs: &[RunRec]) -> Outcome {
         }
     }
     out.stats.add("position_checks", checked);
+    out.stats.add("reach.related_position_commands", plans[0].params.u("related_position_commands"));
     if rec.end == EndReason::Deadlock {
         out.violations
             .push(Violation::new("wedged", "nothing runnable before the session finished"));
